@@ -410,6 +410,7 @@ pub fn def() -> CheckDef {
             "heap bound calibrated on the densest legitimate input (a 2-byte pointer expanding to 127 labels: ~515 heap bytes per input byte)",
         ],
         sections: vec![
+            Box::new(ReplayOnly { name: "bytes", check: check_bytes }),
             Box::new(EnumSection { name: "cut-perturb", rule: "truncations and perturbations of reference encodings", enumerate: enum_cut_perturb, check: check_bytes, exhaustive: true }),
             Box::new(EnumSection { name: "short", rule: "all short buffers", enumerate: enum_short, check: check_bytes, exhaustive: true }),
             Box::new(EnumSection { name: "bodies", rule: "bounded-exhaustive bodies", enumerate: enum_bodies, check: check_bytes, exhaustive: true }),
